@@ -49,4 +49,15 @@ CLAIMED['C09'] = {
     'technique': 'contract-based deductive verification (loop invariants, Sel/ArgMax ghost functions, z3/cvc5) + bounded small-scope oracle over all rule orders',
 }
 
+CLAIMED['C07'] = {
+    'category': 'proof',
+    'text': 'Representation invariants of the three process-wide caches (expression cache, regex cache, cached engine) proved as pre/post '
+            'conditions of the real parse_expression, TransactionContext._fn_regex and get_all_rules, so by induction over histories every lookup '
+            'equals a cold computation; frame clauses (nothing reachable from rules, rows, variables or the transaction is written, evaluator scope is '
+            'per instance, parse() starts from empty state) for 80+ functions by the syntactic back end; history oracle is a labelled extra.',
+    'level_note': _BASE_NOTE + ' ast.parse, re.compile, Pattern.search and load_merchants_file are uninterpreted deterministic functions that may raise; '
+                  'the structural frame checker is conservative and part of the trusted base.',
+    'technique': 'contract-based deductive verification (cache representation invariants by symbolic execution + z3; frame clauses by a syntactic checker) + bounded history oracle',
+}
+
 NOT_APPLICABLE = {}
